@@ -14,6 +14,8 @@ CONSTANTS
   Fall = 1
   MaxRounds = 2
   MaxConns = 1
+  MaxHalf = 0
+  WatcherLeaves = {}
   MaxToggles = 1
   TargetLen = 9
 VIEW EGenView
